@@ -170,6 +170,9 @@ func (ex *Exec) record(st *State, ob *Obligation) {
 		ob.PC = append([]*Term(nil), st.PC...)
 		ob.Snap = ex.snapshot(st, ob.Kind == "post" || ob.Kind == "frame")
 	}
+	if ex.entryCt != nil && ex.entryCt.SeqMode {
+		ob.Seq = true
+	}
 	ex.Obls = append(ex.Obls, ob)
 }
 
@@ -1174,7 +1177,7 @@ func (ex *Exec) CheckLemma(lm *Lemma) {
 		ex.Specs.Errors = append(ex.Specs.Errors, fmt.Sprintf("%s: lemma %q: %s", lm.Line, lm.Src, strings.Join(errs, "; ")))
 		return
 	}
-	ob := &Obligation{Name: fmt.Sprintf("lemma/%s/%s", shortName(lm.Pkg), lm.Label), Kind: "lemma", Goal: t, Props: lm.Props, Note: lm.Line}
+	ob := &Obligation{Name: fmt.Sprintf("lemma/%s/%s", shortName(lm.Pkg), lm.Label), Kind: "lemma", Goal: t, Props: lm.Props, Note: lm.Line, Seq: lm.Seq}
 	ex.record(st, ob)
 }
 
